@@ -221,12 +221,19 @@ def run(pid, tier):
         cov["traces_validated_against_impl"] = result["traces"]
         cov["callback_streams_checked"] = result["step_calls"]
         level = "model_checking"
+        # invocation brackets (the charts of the campaign have no <invoke>): recordings of sessions whose invocation
+        # cannot be started (harness/mt_invoke, scenario "bad"), judged by Trace_InvokeAll's bracket rule
+        extra_paths = invoke_brackets(viol)
+        cov["failing_invocations_checked"] = 8
     else:
         raise SystemExit("unknown property " + pid)
 
     # replay files
     paths = []
-    for v in viol[:10]:
+    campaign_viol = [v for v in viol if v.get("exec") != "mt_invoke"]
+    if pid == "C13":
+        paths.extend(extra_paths)
+    for v in campaign_viol[:10]:
         if v.get("chart"):
             paths.append(write_replay(pid, result, v))
         else:
@@ -234,6 +241,28 @@ def run(pid, tier):
     cov["unexplained_total"] = len(viol)
     write_evidence(pid, tier, level, cov, time.time() - t0, len(viol), assumptions)
     finish(pid, paths, ["%s (%d cases in this run)" % (h[0]["what"], h[1]) for h in hits.values()])
+
+
+def invoke_brackets(viol):
+    wd = os.path.join(OUT, "c13")
+    os.makedirs(wd, exist_ok=True)
+    tr = os.path.join(wd, "bad.ndjson")
+    r = sh([os.path.join(BIN, "mt_invoke"), tr, "8", str(seed()), "bad"], stdout=subprocess.PIPE, stderr=subprocess.STDOUT, text=True)
+    if r.returncode != 0:
+        fail_model("mt_invoke bad", r.stdout[-1000:])
+    (rc, out), = run_parallel([tlc_cmd("Trace_InvokeAll.tla", "Trace_InvokeAll.cfg", os.path.join(wd, "meta"))], env={"TRACE": tr})
+    p = parse_tlc(out)
+    if not p["ok"] or p["error"]:
+        fail_model("Trace_InvokeAll", out[-1500:])
+    paths = []
+    vs = [v for v in p["verdicts"] if v["property"] == "C13"]
+    if vs:
+        rp = os.path.join(OUT, "replay", "C13-invoke-bracket.json")
+        with open(rp, "w") as f:
+            json.dump({"property": "C13", "kind": "mt_invoke", "scenario": "bad", "verdicts": vs[:8]}, f, indent=1)
+        paths.append(rp)
+        viol.extend(vs)
+    return paths
 
 
 def chart_of_case(result, case):
